@@ -123,10 +123,13 @@ func edgeAtoms(b *ssa.BasicBlock, succ int) []struct {
 		return nil
 	}
 	onTrue := succ == 0
-	phi, isPhi := ifi.Cond.(*ssa.Phi)
-	if !isPhi || phi.Block() != b {
-		v, neg := stripNot(ifi.Cond)
-		return []atom{{v, onTrue != neg}}
+	cv, cneg := stripNot(ifi.Cond)
+	phi, isPhi := cv.(*ssa.Phi)
+	if !isPhi || (phi.Comment != "&&" && phi.Comment != "||") {
+		return []atom{{cv, onTrue != cneg}}
+	}
+	if cneg {
+		onTrue = !onTrue
 	}
 	var out []atom
 	want := "false" // && : other edges are constant false
@@ -139,7 +142,7 @@ func edgeAtoms(b *ssa.BasicBlock, succ int) []struct {
 				return nil // not a pure conjunction (disjunction) on this edge
 			}
 			// the conjunct that short-circuited here: the If of the predecessor
-			pb := b.Preds[i]
+			pb := phi.Block().Preds[i]
 			if pif, ok := pb.Instrs[len(pb.Instrs)-1].(*ssa.If); ok {
 				v, neg := stripNot(pif.Cond)
 				// on this (unsatisfied) edge the conjunct was false; on the phi's true edge it was true
